@@ -443,6 +443,10 @@ int parse_instruction_stm8(AsmContext *asm_context, char *instr)
           operands[operand_count].type = OP_NUMBER8; break;
         case NUM_SIZE_WORD:
           operands[operand_count].type = OP_NUMBER16; break;
+        case NUM_SIZE_EXTENDED:
+          // No instruction takes an immediate wider than 16 bits.
+          print_error_range(asm_context, instr, -32768, 0xffff);
+          return -1;
         default:
           // FIXME - bad error message
           //print_error_range(asm_context, instr, 0, 0xff);
